@@ -264,7 +264,7 @@ impl Scenario for Foreign {
                 Err(ZipError::FileNotFound) => {}
                 other => return Err(viol(format!("{pfx}/absent-name"), format!("by_name(absent) = {:?}", other.map_err(|e| zerr_pub(&e))))),
             }
-            let mut last = std::collections::HashMap::new();
+            let mut last = std::collections::BTreeMap::new();
             for (i, nm) in names.iter().enumerate() {
                 last.insert(nm.clone(), i);
             }
